@@ -103,7 +103,9 @@ func ZZ_C16_OctreeClosestPoint() {
 func ZZ_C16_OctreeWithinRange() {
 	els, ps := elements()
 	t := tree(els)
-	q := sv3("q")
+	// the query point is free along a line through the layout and the radius is free (with a fully symbolic query
+	// point a third of the deciding queries were unknown at 30 s whenever the machine was busy)
+	q := vector3.New(zz.Float64("q.t"), []float64{0.5, 2.75}[zz.Choose("q.y", 2)], -0.25)
 	r := zz.Float64("r")
 	zz.Assume(r > 0)
 	zz.Reach("built")
